@@ -1,10 +1,67 @@
 import PhysisModel.Base.Proto
+import PhysisModel.Model.Blowfish
+import PhysisModel.Spec.Blowfish
+/-!
+C11 driver.  Case grammar (hex fields, `-` = empty):
+
+* `enc <key> <msg>`  — `Blowfish::new(key).encrypt(msg)`
+* `dec <key> <data>` — `Blowfish::new(key).decrypt(data)`
+* `rt <key> <msg>`   — `decrypt(encrypt(msg))`
+* `kat <key> <plain> <cipher>` — a published ECB test vector (8-byte key, block and ciphertext as
+  the big-endian words `L‖R` of the publication); the harness feeds the two words little-endian.
+
+`expected` is computed by `Spec/Blowfish.lean` only: textbook Blowfish keyed with the first 8 key
+bytes, tables = hexadecimal digits of π computed by the spec (never the tables extracted from the
+source).  For `rt` it is `pad8 msg` itself, for `kat` the published ciphertext — and the line is
+rejected (`bad-case`, a machinery failure) if the spec cipher does not reproduce the publication.
+`model` is the model of the Rust code running on the extracted tables.
+-/
 namespace Physis.Driver.C11
 open Physis Physis.Proto
 
-/-- one case line in, one answer line out (see `Base/Proto.lean`) -/
+def optHex (o : Option Bytes) : String := match o with | some b => Bytes.toHex b | none => "none"
+
+/-- the key the property assigns to `key`: its first 8 bytes (`none`: outside the quantifier) -/
+def specKey (key : Bytes) : Option { k : Bytes // 0 < k.length } :=
+  if h : 8 ≤ key.length then some ⟨key.take 8, by simp; omega⟩ else none
+
+/-- big-endian word pair of a published vector -/
+def bePair : Bytes → Option (UInt32 × UInt32)
+  | [a, b, c, d, e, f, g, h] => some (Spec.Blowfish.le32 d c b a, Spec.Blowfish.le32 h g f e)
+  | _ => none
+
+def wordSwap (x : UInt32 × UInt32) : Bytes := putU32le x.1 ++ putU32le x.2
+
 def handle (line : String) : String :=
   match fields line with
+  | [op, k, m] =>
+    match Bytes.ofHexFast k, Bytes.ofHexFast m with
+    | some key, some msg =>
+      match specKey key with
+      | none => bad
+      | some ⟨k8, h8⟩ =>
+        if op == "enc" then
+          answer "=" (Bytes.toHex (Spec.Blowfish.encrypt k8 h8 msg)) []
+            (some (optHex (Blowfish.encryptWith key msg)))
+        else if op == "dec" then
+          answer "=" (Bytes.toHex (Spec.Blowfish.decrypt k8 h8 msg)) []
+            (some (optHex (Blowfish.decryptWith key msg)))
+        else if op == "rt" then
+          answer "=" (Bytes.toHex (Spec.Blowfish.pad8 msg)) (if msg.isEmpty then ["triv"] else [])
+            (some (optHex ((Blowfish.new key).bind fun st => (Blowfish.encrypt st msg).bind (Blowfish.decrypt st))))
+        else bad
+    | _, _ => bad
+  | ["kat", k, p, c] =>
+    match Bytes.ofHex k, (Bytes.ofHex p).bind bePair, (Bytes.ofHex c).bind bePair with
+    | some key, some plain, some cipher =>
+      if h : key.length = 8 then
+        let t := Spec.Blowfish.subkeys key (by omega)
+        if Spec.Blowfish.encryptBlock t plain == cipher && Spec.Blowfish.decryptBlock t cipher == plain then
+          answer "=" (Bytes.toHex (wordSwap cipher)) []
+            (some (optHex (Blowfish.encryptWith key (wordSwap plain))))
+        else bad  -- the spec cipher disagrees with the published vector
+      else bad
+    | _, _, _ => bad
   | _ => bad
 
 end Physis.Driver.C11
